@@ -6,9 +6,11 @@ obs = {outs:[{err, spec, n}], runs, restSame, panic}
       the DISTINCT results of `runs` fresh applications of the real generator.
 
 agree : the implementation produced exactly one result and it equals the model's
-        (`Nri.Generate.adjust`, the repaired code); in addition the model is run under every
-        permutation of the annotation and unified map entries (≤ 5 entries, else rotations)
-        and must give one answer.
+        (`Nri.Generate.adjust`, the repaired code); in addition the model's annotation stage is
+        run under PAIRS of iteration orders (`applyOrders π1 π2`: the two `range` loops draw
+        independent orders; all pairs up to 4 entries, permutations × rotations for 5, rotations
+        × rotations above) and the unified stage under every permutation (≤ 5 entries, else
+        rotations); all must give one answer.
 spec  : `Nri.Generate.Check.checkAll` on every successful result + determinism + untouched
         rest of the spec + legitimate error class, evaluated on the implementation's output.
 -/
@@ -195,6 +197,19 @@ def orders {α : Type} (l : List α) : List (List α) :=
   if l.length ≤ 5 then perms l
   else (List.range l.length).map (fun i => l.drop i ++ l.take i) ++ [l.reverse]
 
+/-- rotations and the reverse -/
+def lightOrders {α : Type} (l : List α) : List (List α) :=
+  (List.range l.length).map (fun i => l.drop i ++ l.take i) ++ [l.reverse]
+
+/-- PAIRS of iteration orders for the two `range` loops of `AdjustAnnotations` (Go draws them
+    independently): all pairs up to 4 entries (≤ 576), every permutation against the rotations
+    and the reverse — both ways round — for 5 entries, rotations × rotations above. -/
+def orderPairs {α : Type} (l : List α) : List (List α × List α) :=
+  let pairs (xs ys : List (List α)) := xs.flatMap fun x => ys.map fun y => (x, y)
+  if l.length ≤ 4 then pairs (perms l) (perms l)
+  else if l.length ≤ 5 then pairs (perms l) (lightOrders l) ++ pairs (lightOrders l) (perms l)
+  else pairs (lightOrders l) (lightOrders l)
+
 /-! ### the error class the property allows, read off the input -/
 
 def expectedErr (s : Oci.Spec) (a : Adjustment) (e : ExtIn) : String :=
@@ -267,8 +282,9 @@ def judge (j : Json) : Except String Verdict := do
   -- model (repaired code), under every iteration order of the two maps
   let m := adjust ext s a
   let annOrders := orders a.annotations
-  let annStable := annOrders.all fun π =>
-    alistEqv (Annotations.apply s.annotations π) (Annotations.apply s.annotations a.annotations)
+  let annRef := Annotations.apply s.annotations a.annotations
+  let annStable := (orderPairs a.annotations).all fun (π1, π2) =>
+    alistEqv (Annotations.applyOrders s.annotations π1 π2) annRef
   let uni := match a.resources with | some r => r.unified | none => []
   let uniStable := (orders uni).all fun π =>
     alistEqv (Resources.applyUnified s.unified π) (Resources.applyUnified s.unified uni)
@@ -279,8 +295,8 @@ def judge (j : Json) : Except String Verdict := do
     | .error ue => o.err == errName ue
   let matchesLists := sameAs [adjustListsUnfixed ext s a]
   let matchesUnfixed := matchesLists || sameAs (annOrders.map fun π => adjustUnfixed ext s { a with annotations := π })
-  let diag := if matchesLists then " [the result is that of generate.go without docs/fixes/C13-1.patch (removals before sets in env/devices/mounts)]"
-    else " [the results are those of generate.go before the repairs 1f50159/ad4e689/C13-1]"
+  let diag := if matchesLists then " [the result is that of generate.go before commit 6eaf34c (removals before sets in env/devices/mounts)]"
+    else " [the results are those of generate.go before the repairs 1f50159/ad4e689/6eaf34c]"
   let agreeOut := match outs, m with
     | [o], .ok ms => o.err == "" && specEqv ms o.spec
     | [o], .error me => o.err == errName me
@@ -328,7 +344,16 @@ def judge (j : Json) : Except String Verdict := do
   let cover := [s!"kind:{kind}", if excluded then "domain:excluded" else "domain:in",
                 s!"outs:{outs.length}", s!"err:{expErr}",
                 s!"perm:ann:{a.annotations.length}", s!"perm:uni:{uni.length}"] ++
-               coverTags s a ++ (if matchesUnfixed && !agreeOut then ["impl:as-unrepaired"] else [])
+               coverTags s a ++ (if matchesUnfixed && !agreeOut then ["impl:as-unrepaired"] else []) ++
+               (match outs with
+                | o :: _ =>
+                  let ms := o.spec.mounts
+                  let unclean := fun (m : Oci.Mount) => Mounts.cleanPath m.destination != m.destination
+                  (if !a.mounts.isEmpty && ms.any unclean then ["mnt:unclean-destination-in-result"] else []) ++
+                  (if !a.mounts.isEmpty && ms.any (fun c => unclean c && ms.any (fun p => Check.isCleanParentOf p.destination c.destination))
+                    then ["mnt:clean-parent-with-unclean-child"] else [])
+                | [] => []) ++
+               [s!"perm:ann-pairs:{(orderPairs a.annotations).length}"]
   pure { agree := agree, spec := spec || excluded, why := why, cover := cover,
          nontrivial := touches a && !excluded, excluded := excluded,
          sig := match guard with
